@@ -122,7 +122,9 @@ pub fn gen_fmt_value(rng: &mut Rng) -> (i128, i32) {
             let a = rng.range_i64(-1200, 1200);
             (cal::days_from_civil(a, 1, 1) + rng.below(366) as i64) as i128 * D + rng.range_i128(0, D - 1)
         }
-        4 => crate::model::magic::gen_instant_at(rng, MIN_INSTANT + 2 * D, MAX_INSTANT - 2 * D) - if rng.chance(1, 2) { rng.range_i128(0, D) } else { 0 },
+        // (kept 800 days inside the range: in the two partly representable years a pattern without a day or month field
+        // re-reads into an unrepresentable default date, which parse rightly refuses)
+        4 => crate::model::magic::gen_instant_at(rng, MIN_INSTANT + 800 * D, MAX_INSTANT - 800 * D) - if rng.chance(1, 2) { rng.range_i128(0, D) } else { 0 },
         _ => gen_c09_instant(rng),
     }
     .clamp(MIN_INSTANT + 2 * D, MAX_INSTANT - 2 * D);
@@ -355,7 +357,7 @@ pub fn run(ctx: &Ctx) -> PropResult {
     let out = run_workloads(ctx, wls);
     let mut meta = PropMeta::default();
     meta.rule = format!(
-        "every (type, symbol, width 1..=10) — {} combinations — against {} values each (strata: BC and 5–7 digit years, 1–3 digit years, hours 0/11/12/13/23, noon/midnight ±1 s, week 52/53/1 year edges, month ends, offsets with minutes and seconds of both signs and offsets that move the local date); random compositions of 1–8 tokens with ASCII punctuation, non-symbol letters, digits, multi-byte literals, quoted segments with doubled apostrophes and the other type's symbols. Oracle: fmt_spec, a renderer written from the documentation tables (self-checked on the documentation's examples), fed with the value's own getter values (year, month, day, day_of_year, weekday, hour … nano, get_offset; the week number, which has no getter, is what a bare `w` prints) — which date/week/weekday an instant has is C01/C02/C10's claim, how the fields are rendered is this one's. Not judged: `yy` on negative years, NUL, unterminated quotes. Every judged case is non-trivial; distinct by hash of (value, pattern).",
+        "every (type, symbol, width 1..=10) — {} combinations — against {} values each (strata: BC and 5–7 digit years, 1–3 digit years, hours 0/11/12/13/23, noon/midnight ±1 s, week 52/53/1 year edges, month ends, offsets with minutes and seconds of both signs and offsets that move the local date); random compositions of 1–8 tokens with ASCII punctuation, non-symbol letters, digits, multi-byte literals, quoted segments with doubled apostrophes and the other type's symbols. Oracle: fmt_spec, a renderer written from the documentation tables (self-checked on the documentation's examples), fed with the value's own getter values (year, month, day, day_of_year, weekday, hour … nano, get_offset; the week number, which has no getter, is what a bare `w` prints) — which date/week/weekday an instant has is C01/C02/C10's claim, how the fields are rendered is this one's. Not judged: `yy` on negative years, NUL, unterminated quotes. Every judged case is non-trivial; distinct by hash of (value, pattern). Literal alphabet incl. line ends, tab, NBSP, backslash, DEL, zero-width and combining marks and Unicode numerics that are not ASCII digits; literal runs of 200…70 000 identical characters (around 255/256 and 65 535/65 536). Call sequences: one instant under changing offsets with one pattern, one value under changing patterns, then the first call again. Offset::Local under a changing system zone: the same format/to_string call on one value carrying Offset::Local with only the hooked zone changing in between must follow the zone (compared with the Offset::Fixed twin).",
         combos.len(),
         per
     );
